@@ -21,16 +21,24 @@ from c09 import (run_impl, model_lines, parse_model, compare_frame, impl_fields,
 from common import Check, run_check, run_driver
 
 THEOREMS = [
+    "SleapVerif.C10.identity_preserved_fw_greedy",
+    "SleapVerif.C10.identity_preserved_lq_greedy",
+    "SleapVerif.C10.identity_preserved_fw_hungarian_partial",
+    "SleapVerif.C10.identity_preserved_lq_hungarian_partial",
+    "SleapVerif.C10.identity_constant",
+    "SleapVerif.C10.identity_every_detection_tracked",
+    "SleapVerif.C10.window_purity_step_fw",
+    "SleapVerif.C10.window_purity_step_lq",
     "SleapVerif.C10.reduction_preserves_dominance",
     "SleapVerif.C10.separated_gives_dominant",
     "SleapVerif.C10.greedy_rejects_only_for_cheaper",
     "SleapVerif.C10.greedy_picks_identity",
     "SleapVerif.C10.greedy_stage_picks_identity",
     "SleapVerif.C10.stage_identity",
-    "SleapVerif.C10.fw_identity_preserved_greedy_partial",
-    "SleapVerif.C10.lq_identity_preserved_greedy_partial",
-    "SleapVerif.C10.fw_identity_preserved_hungarian_partial",
-    "SleapVerif.C10.lq_identity_preserved_hungarian_partial",
+    "SleapVerif.C10.fw_identity_step_greedy",
+    "SleapVerif.C10.lq_identity_step_greedy",
+    "SleapVerif.C10.fw_identity_step_hungarian",
+    "SleapVerif.C10.lq_identity_step_hungarian",
     "SleapVerif.C10.lq_no_stale",
 ]
 MARGIN = 1e-6
@@ -82,6 +90,48 @@ def gen_scene(rng, cfg=None):
                 known.add(a)
                 absent[a] = 0
     return {"cfg": cfg, "frames": frames}
+
+
+def gen_fast_small(rng, cfg=None):
+    """Scene family `fast_small` (OKS near the underflow regime): small bodies (12–14 px) that jump
+    ~12 px per frame, animals 1000 px apart, no absences, detections listed in an order that differs
+    from the track-id order.  The OKS between a detection and its own previous position is
+    exp(-d²/(0.005·area)) with d²/(0.005·area) in (103, 300): tiny but strictly positive in float64
+    (≥ 1e-130), exactly 0 against every other animal, so the same-animal score is strictly the largest
+    and identity must be kept; any loss of precision in the score (e.g. float32 exp, which underflows
+    beyond ~103) turns it into a tie that the listing order decides."""
+    oks = [c for c in all_configs() if c["scoring_method"] == "oks"]
+    cfg = dict(cfg or rng.choice(oks))
+    cfg["window_size"] = rng.choice([1, 2, 3, 5])
+    cfg["instance_score_threshold"] = 0.0
+    K = rng.choice([2, 2, 3, 4])
+    F = rng.randint(3, 8)
+    size = [rng.choice([12, 14]) for _ in range(K)]
+    pos = [[1000.0 * a + rng.randrange(0, 64) / 16, 1000.0 * (a % 2) + rng.randrange(0, 64) / 16] for a in range(K)]
+    arrive = [0] * K
+    if K > 2 and rng.random() < 0.3:
+        arrive[K - 1] = rng.randint(1, F - 1)          # a late arrival; everybody else stays visible
+    steps = [(12, 0), (-12, 0), (0, 12), (0, -12), (8, 8), (-8, 8), (8, -8), (-8, -8), (10, 6), (-6, 10)]
+    frames = []
+    for f in range(F):
+        dets = []
+        for a in range(K):
+            if f > 0:
+                dx, dy = rng.choice(steps)
+                pos[a][0] += dx
+                pos[a][1] += dy
+            if arrive[a] <= f:
+                dets.append([pos[a][0], pos[a][1], 0.9, a, size[a]])
+        # listing order different from the track-id (= first-appearance) order
+        if f > 0 and len(dets) > 1:
+            if rng.random() < 0.5:
+                dets.reverse()
+            else:
+                rng.shuffle(dets)
+                if [d[3] for d in dets] == sorted(d[3] for d in dets):
+                    dets.reverse()
+        frames.append(dets)
+    return {"cfg": cfg, "frames": frames, "family": "fast_small"}
 
 
 # --------------------------------------------------------------------------- ground-truth oracle
@@ -221,6 +271,22 @@ def purity_ok(case, frames):
     return True
 
 
+def shrink_scene(case, fail_frame, sigs):
+    """Stay inside the scene class: cut the history after the failing frame, then drop whole animals
+    (never a middle frame: that would lengthen a jump / an absence)."""
+    def fails(c):
+        fr = run_impl(c)
+        return bool(oracle(c, fr)) and c09.signatures(c, fr, c09.oracle(c, fr)) == sigs
+    cur = dict(case, frames=case["frames"][:fail_frame + 1])
+    if not fails(cur):
+        return case
+    for a in sorted({d[3] for dets in cur["frames"] for d in dets}):
+        cand = dict(cur, frames=[[d for d in dets if d[3] != a] for dets in cur["frames"]])
+        if any(cand["frames"]) and fails(cand):
+            cur = cand
+    return cur
+
+
 def scene_key(case):
     return json.dumps([sorted(case["cfg"].items()), [[d[3] for d in dets] for dets in case["frames"]]],
                       sort_keys=True, default=str)
@@ -236,6 +302,11 @@ def main(chk):
         cases.append(gen_scene(chk.rng, cfg=cfg))
     for _ in range(chk.n(400, 5000)):
         cases.append(gen_scene(chk.rng))
+    # OKS near the float underflow regime (seeded C10-m1): every oks configuration once, then random
+    for cfg in [c for c in all_configs() if c["scoring_method"] == "oks"]:
+        cases.append(gen_fast_small(chk.rng, cfg=cfg))
+    for _ in range(chk.n(100, 1200)):
+        cases.append(gen_fast_small(chk.rng))
     runs, lines, spans = [], [], []
     for case in cases:
         frames = run_impl(case)
@@ -253,6 +324,7 @@ def main(chk):
                 "red_" + cfg["scoring_reduction"], f"window_{cfg['window_size']}", f"animals_{nanimals}"]
         if any(len(a) < len(b) for a, b in zip(case["frames"], case["frames"][1:])):
             tags.append("has_arrival_or_return")
+        tags.append("family_" + case.get("family", "separated"))
         chk.case(scene_key(case) if nanimals else None,
                  sample={"cfg": cfg, "frames": [[d[3] for d in dets] for dets in case["frames"]],
                          "impl": [fr["out"] if fr["res"] == "ok" else fr["res"] for fr in frames]}, tags=tags)
@@ -265,10 +337,7 @@ def main(chk):
         bad = oracle(case, frames)
         if bad:
             sigs = c09.signatures(case, frames, c09.oracle(case, frames))
-            small = case
-            if len(chk.failing) < 4:
-                small = c09.shrink(case, lambda c: bool(oracle(c, run_impl(c)))
-                                   and c09.signatures(c, run_impl(c), c09.oracle(c, run_impl(c))) == sigs)
+            small = shrink_scene(case, bad[0][0], sigs) if len(chk.failing) < 4 else case
             chk.fail(f"C10 fails at frame {bad[0][0]}: {bad[0][1]}", small, bad[:3], sigs)
         else:
             ok, mg = check_hypotheses(chk, case, frames)
@@ -276,7 +345,9 @@ def main(chk):
                 margins.append(mg)
                 chk.tag("hypotheses_validated")
             elif mg <= MARGIN:
-                chk.knife_edges += 1
+                # still compared and judged by the oracle; only the hypothesis validation is skipped
+                # (fast_small scenes: same-animal OKS is positive but far below the tolerance)
+                chk.tag("hypotheses_margin_below_tolerance")
             if not purity_ok(case, frames):
                 chk.disagree("window purity (a track's stored features belong to one animal) broken",
                              case, "impure", "pure")
@@ -292,15 +363,16 @@ if __name__ == "__main__":
     chk = Check(
         "C10", module="SleapVerif.Props.C10", theorems=THEOREMS,
         build_targets=["SleapVerif.Model.Tracker", "SleapVerif.Lemmas.Tracker", "SleapVerif.Lemmas.TrackerInv",
-                       "SleapVerif.Lemmas.TrackerIdentity"],
+                       "SleapVerif.Lemmas.TrackerIdentity", "SleapVerif.Lemmas.TrackerOwner",
+                       "SleapVerif.Lemmas.TrackerHistory"],
         trusted=[
             "Lean 4.33 kernel + Mathlib (ordered fields, WithTop); axioms ⊆ {propext, Classical.choice, Quot.sound}",
             "model SleapVerif.Tracker tied to /repo by the same per-frame correspondence as C09",
             "numpy argsort ascending (ArgsortSorted; validated per recorded call)",
             "scipy optimum = identity edges under row+column dominance (LsaPicksIdentity; hypothesis of the "
             "Hungarian theorems, validated per recorded call, not proved)",
-            "window purity and Separated relative to the window are measured per frame on the real queue "
-            "(the lifting of the one-step theorems to histories is not proved)",
+            "the scene-class hypotheses (FW.InClass / LQ.InClass: separation, no stale track, purity-derived "
+            "dominance) are measured per frame on the recorded scores and the real queue",
             "float evaluation of oks / iou / distance keeps the separation margin positive (measured: min margin in evidence)",
         ],
         rule="scene = configuration × per-frame ordered presence pattern of ≤ 4 separated animals; distinct = "
